@@ -142,13 +142,34 @@ static void s_ddict(Env* e) {
     ZSTD_freeDCtx(d); ZSTD_freeDDict(dd); free(out);
 }
 static void s_multiddict(Env* e) {
-    ZSTD_DCtx* d = ZSTD_createDCtx_advanced(sess_cmem()); ZSTD_DDict* dds[5]; int i; uint8_t* out = (uint8_t*)malloc(e->in_size + 1); size_t r = 0;
-    memset(dds, 0, sizeof dds);
-    if (d) { ZSTD_DCtx_setParameter(d, ZSTD_d_refMultipleDDicts, ZSTD_rmd_refMultipleDDicts);
-        for (i = 0; i < 5; i++) { dds[i] = ZSTD_createDDict_advanced(e->dict, e->dict_size - (size_t)i * 3, ZSTD_dlm_byRef, ZSTD_dct_rawContent, sess_cmem()); if (dds[i]) r = ZSTD_DCtx_refDDict(d, dds[i]); }
-        if (dds[0] && !ZSTD_isError(r)) { ZSTD_DCtx_refDDict(d, dds[0]); r = ZSTD_decompressDCtx(d, out, e->in_size, e->comp, e->comp_size); if (!ZSTD_isError(r) && (r != e->in_size || memcmp(out, e->in, r))) sim_violation("oom_wrong_output", "multi-DDict decode returned success with wrong content"); }
+    /* a decoder that references 20 dictionaries with distinct IDs (the hash set grows at the 17th); after a failed reference the
+     * session is reset, the reference retried, and frames made with early and late dictionaries must still find theirs */
+    enum { ND = 20 };
+    ZSTD_DCtx* d = ZSTD_createDCtx_advanced(sess_cmem()); ZSTD_DDict* dds[ND]; int i; size_t const n = e->in_size < 20000 ? e->in_size : 20000; uint8_t* out = (uint8_t*)malloc(n + 1);
+    uint8_t* base = NULL; size_t bsize = 0; uint8_t* copies[ND]; uint8_t* frames[3]; size_t fsize[3]; static const int k_use[3] = { 0, 9, ND - 1 };
+    memset(dds, 0, sizeof dds); memset(copies, 0, sizeof copies); memset(frames, 0, sizeof frames);
+    {   /* one structured dictionary from the input, then copies that differ in their ID only (default allocator: not under fault here) */
+        size_t sizes[8]; unsigned ns = 0; size_t tot = 0; ZDICT_params_t zp; uint8_t* buf = (uint8_t*)malloc(4096); size_t const content = e->dict_size < 1500 ? e->dict_size : 1500;
+        memset(&zp, 0, sizeof zp); zp.dictID = 40000; while (ns < 8 && tot + 64 <= e->in_size) { size_t l = e->in_size / 8; if (l < 64) l = 64; if (tot + l > e->in_size) l = e->in_size - tot; sizes[ns++] = l; tot += l; }
+        if (ns && content >= 8) { bsize = ZDICT_finalizeDictionary(buf, 4096, e->dict, content, e->in, sizes, ns, zp); if (ZDICT_isError(bsize)) bsize = 0; }
+        base = buf;
     }
-    ZSTD_freeDCtx(d); for (i = 0; i < 5; i++) ZSTD_freeDDict(dds[i]); free(out);
+    if (bsize) for (i = 0; i < ND; i++) { unsigned const id = 40000 + (unsigned)i * 7; copies[i] = (uint8_t*)malloc(bsize); memcpy(copies[i], base, bsize); copies[i][4] = (uint8_t)id; copies[i][5] = (uint8_t)(id >> 8); copies[i][6] = (uint8_t)(id >> 16); copies[i][7] = (uint8_t)(id >> 24); }
+    if (bsize) for (i = 0; i < 3; i++) { ZSTD_CCtx* c = ZSTD_createCCtx(); size_t const cap = ZSTD_compressBound(n) + 64; frames[i] = (uint8_t*)malloc(cap); fsize[i] = ZSTD_compress_usingDict(c, frames[i], cap, e->in, n, copies[k_use[i]], bsize, 3); ZSTD_freeCCtx(c); if (ZSTD_isError(fsize[i])) fsize[i] = 0; }
+    if (d && bsize) { size_t r; ZSTD_DCtx_setParameter(d, ZSTD_d_refMultipleDDicts, ZSTD_rmd_refMultipleDDicts);
+        for (i = 0; i < ND; i++) {
+            dds[i] = ZSTD_createDDict_advanced(copies[i], bsize, ZSTD_dlm_byRef, ZSTD_dct_fullDict, sess_cmem());
+            if (!dds[i]) { e->reached++; disarm(e); dds[i] = ZSTD_createDDict_advanced(copies[i], bsize, ZSTD_dlm_byRef, ZSTD_dct_fullDict, sess_cmem()); if (!dds[i]) sim_violation("oom_not_reusable", "createDDict fails without fault"); }
+            r = ZSTD_DCtx_refDDict(d, dds[i]);
+            if (ZSTD_isError(r)) { e->reached++; disarm(e); ZSTD_DCtx_reset(d, ZSTD_reset_session_only); r = ZSTD_DCtx_refDDict(d, dds[i]); if (ZSTD_isError(r)) sim_violation("oom_not_reusable", "refDDict of dictionary %d after failure and reset: %s", i, ZSTD_getErrorName(r)); sim_probe("c13.recovered"); }
+        }
+        if (!e->counting) for (i = 0; i < 3; i++) if (fsize[i]) {
+            r = ZSTD_decompressDCtx(d, out, n, frames[i], fsize[i]);
+            if (ZSTD_isError(r)) { if (ZSTD_getErrorCode(r) == ZSTD_error_memory_allocation) { e->reached++; disarm(e); ZSTD_DCtx_reset(d, ZSTD_reset_session_only); r = ZSTD_decompressDCtx(d, out, n, frames[i], fsize[i]); } if (ZSTD_isError(r)) sim_violation("oom_not_reusable", "multi-DDict decoder no longer finds dictionary %d (of %d referenced): %s", k_use[i], ND, ZSTD_getErrorName(r)); }
+            if (r != n || memcmp(out, e->in, n)) sim_violation("oom_wrong_output", "multi-DDict decode returned success with wrong content");
+        }
+    }
+    ZSTD_freeDCtx(d); for (i = 0; i < ND; i++) { ZSTD_freeDDict(dds[i]); free(copies[i]); } for (i = 0; i < 3; i++) free(frames[i]); free(base); free(out);
 }
 static void s_prefix_ldm(Env* e) {
     ZSTD_CCtx* c = ZSTD_createCCtx_advanced(sess_cmem()); uint8_t* dst = (uint8_t*)malloc(OUTCAP(e)); size_t r;
